@@ -257,6 +257,32 @@ Definition scrape (classes : list search_class) (uf co : bool) (dir : list folde
   | Loaded db1 => add_grids uf co dir (grids co dir) db1
   end.
 
+(* ------------------------------------------------------------------------------------------ *)
+(* B'. archives: unzip_directory runs before the walk and extracts every <name>.zip OVER <name>/      *)
+(* ------------------------------------------------------------------------------------------ *)
+
+(* one place of the output tree: the fit as its archive holds it and/or as the folder beside it holds it
+   (a kill during the removal of the folder after zipping, or during restore(), leaves a complete
+   archive next to a partial or stale folder) *)
+Record on_disk := { d_archive : option folder; d_folder : option folder }.
+
+(* extraction overwrites every file the archive holds: the archive's fit, plus the names of files that
+   exist only in the old folder *)
+Definition overlay (a : folder) (o : option folder) : folder :=
+  {| f_path := f_path a; f_metadata := f_metadata a; f_completed := f_completed a; f_marker := f_marker a;
+     f_parent_file := f_parent_file a; f_written_id := f_written_id a; f_class := f_class a; f_keys := f_keys a;
+     f_name := f_name a; f_tag := f_tag a; f_reload_id := f_reload_id a; f_model := f_model a;
+     f_info := f_info a; f_info_held := f_info_held a; f_samples := f_samples a; f_load_error := f_load_error a;
+     f_jsons := match o with Some f => union_names (f_jsons a) (f_jsons f) | None => f_jsons a end;
+     f_analyses := f_analyses a |}.
+
+Definition unzipped (d : on_disk) : list folder :=
+  match d_archive d with
+  | Some a => [overlay a (d_folder d)]
+  | None => match d_folder d with Some f => [f] | None => [] end
+  end.
+Definition unzip_all (ds : list on_disk) : list folder := flat_map unzipped ds.
+
 (* observation helpers *)
 Definition find_row (id : string) (db : list row) : option row := find (fun r => String.eqb (r_id r) id) db.
 Definition opt_str_eqb (a b : option string) : bool :=
@@ -466,7 +492,10 @@ Inductive case :=
 | CDir (co : bool) (dir : list folder) (obs : observed) (best_ids : list (string * option string))
        (unfaithful : list (list string))
 (* two directories loaded one after the other into the same database *)
-| CDir2 (co : bool) (dirA dirB : list folder) (obsA obsB : observed).
+| CDir2 (co : bool) (dirA dirB : list folder) (obsA obsB : observed)
+(* archives and folders as they lie on disk BEFORE the load (each read on its own): the loaded database is
+   scrape of what extraction-over-the-folder leaves, and that is what an independent extraction shows (`found`) *)
+| CDisk (co : bool) (ds : list on_disk) (found : list folder) (obs : observed).
 
 Definition nth_spec (specs : list fit_spec) (i : nat) : list folder :=
   match nth_error specs i with Some s => [write_fit s] | None => [] end.
@@ -499,6 +528,9 @@ Definition check_case (classes : list search_class) (uf : bool) (c : case) : boo
          | Loaded db => forallb (fun p => opt_str_eqb (option_map r_id (best_child db (fst p))) (snd p)) best_ids
          | Raised _ => true
          end
+  | CDisk co ds found obs =>
+      outcome_matches [] (scrape classes uf co (unzip_all ds) []) obs
+      && list_eqb folder_eqb (unzip_all ds) found
   | CDir2 co dirA dirB obsA obsB =>
       let ma := scrape classes uf co dirA [] in
       let dbA := rows_after [] ma in
